@@ -5,7 +5,8 @@ from .C19 import BASE
 
 RULE = ("TLC walks of I_IPAM with cooldown 100 s, ticks of 70 s, sequence-number captures and stale releases (ABA), plus seeded "
         "sequential histories with releases by address (no / right / wrong handle; no / fresh / old captured sequence number), "
-        "ReleaseByHandle, double releases, ticks; non-trivial = a release was refused as stale, or named an unallocated address, or a "
+        "ReleaseByHandle, double releases, ticks, and assignments by address (AssignIP, one operation in twelve: the free queue after "
+        "it is still judged longest-free first); non-trivial = a release was refused as stale, or named an unallocated address, or a "
         "released address was re-assigned after ticks")
 
 
